@@ -10,7 +10,12 @@
 // Fault enumeration: a fault-free pass counts the writes W; then fault kinds are attached
 // to write indices (all of them when the op says so, a planned subset otherwise).
 // Pure clauses (text round trip, vbi_print_page_region, region rendering) ride along on
-// the pages the simulation reached.
+// the pages the simulation reached.  The text module's content clause is judged for every
+// setting of its options: with control=1/2 the ECMA-48 control functions are removed first and
+// the right halves of wide characters may be missing (check_text_roundtrip); a sweep over
+// control x format/charset x gfx_chr runs on every page the text module exports and as an
+// op of its own (text_sweep), each vector over all four targets.  vbi_print_page_region is
+// called with every buffer size (small regions) or every row-end size (size sweep flag).
 #include <errno.h>
 #include <fcntl.h>
 #include <iconv.h>
@@ -267,13 +272,47 @@ static void header_text(int pgno, uint8_t out[32]) {
   memcpy(out, t, 32);
 }
 static void gen_row(Rng& r, int style, uint8_t out[40]) {
-  // styles: 0 plain, 1 attributes, 2 mosaics, 3 sizes, 4 boxes, 5 everything, 6 text with URLs / e-mail (link cells)
+  // styles: 0 plain, 1 attributes, 2 mosaics, 3 sizes, 4 boxes, 5 everything, 6 text with URLs / e-mail (link cells),
+  //         7 headline rows, 8 words of mixed sizes (both below)
   if (style == 6) {
     static const char* words[] = {"www.zsim.org ", "http://a.b/c?d&e ", "joe@example.com ", "ftp://x.y ", "<News> & \"more\" ", "p.123 ", "Wetter ", "100 200 300 "};
     std::string s;
     while (s.size() < 40) s += words[r.below(8)];
     for (int c = 0; c < 40; c++) out[c] = (uint8_t)s[(size_t)c];
     if (r.chance(1, 2)) out[0] = (uint8_t)r.below(8);
+    return;
+  }
+  if (style == 7 || style == 8) {
+    // 7: headline - a colour, one size attribute (double height / width / size), optionally flash, conceal or a box, words (letters
+    //    spaced out under double width so that every letter shows), back to normal size somewhere, plain text to the end
+    // 8: words of changing size within one row, every size attribute incl. normal, some words flashing / concealed / boxed / mosaics
+    static const char* words[] = {"NEWS", "Wetter", "SPORT", "12:30", "Heute", "TV", "Index 100", "+++", "Seite", "zsim"};
+    int c = 0;
+    auto put = [&](int v) { if (c < 40) out[c++] = (uint8_t)v; };
+    memset(out, 0x20, 40);
+    if (r.chance(2, 3)) put(1 + (int)r.below(7));
+    while (c < 40) {
+      int size = 0x0C + (int)r.below(4);
+      if (style == 7 && c < 4) size = 0x0D + (int)r.below(3);
+      put(size);
+      bool boxed = r.chance(1, 6);
+      if (boxed) { put(0x0B); put(0x0B); }
+      switch (r.below(8)) { case 0: put(0x08); break; case 1: put(0x18); break; case 2: put(0x10 + (int)r.below(8)); break; default: break; }
+      int nw = style == 7 ? 2 + (int)r.below(3) : 1;
+      bool spaced = (size == 0x0E || size == 0x0F) && r.chance(3, 4);
+      for (int k = 0; k < nw; k++) {
+        for (const char* w = words[r.below(10)]; *w; w++) { put(*w); if (spaced) put(0x20); }
+        put(0x20);
+      }
+      if (boxed) { put(0x0A); put(0x0A); }
+      if (r.chance(1, 3)) put(0x09);
+      if (style == 7) {
+        if (r.chance(1, 4)) break;  // the rest of the row stays blank, still in the headline's size
+        put(0x0C);
+        if (r.chance(1, 2)) put(1 + (int)r.below(7));
+        while (c < 40) put(r.chance(1, 8) ? 0x20 : 0x41 + (int)r.below(58));
+      }
+    }
     return;
   }
   for (int c = 0; c < 40; c++) {
@@ -375,9 +414,10 @@ struct C16 : World {
     for (int i = 0; i < npages; i++) {
       Op o; o.task = 0; o.kind = "page";
       // a: page, sub, national option, header control (bit0 erase, bit1 newsflash, bit2 subtitle, bit3 suppress header, bit4 inhibit display),
-      //    content seed, flags (bit0 X/27/0, bit1 link control, bit2 row 24, bit3 random order, bit4 X/26, bit5 X/28/0), style, density
+      //    content seed, flags (bit0 X/27/0, bit1 link control, bit2 row 24, bit3 random order, bit4 X/26, bit5 X/28/0), style, density,
+      //    extra row styles (bit0 headline / mixed-size rows among the per-row styles, bit1 as the base style)
       o.a = {(int64_t)r.below(99), (int64_t)r.below(4), (int64_t)r.below(8), r.chance(1, 3) ? (int64_t)r.below(32) : 0, (int64_t)r.below(1u << 30),
-             (int64_t)r.below(64), (int64_t)r.below(7), (int64_t)r.below(4)};
+             (int64_t)r.below(64), (int64_t)r.below(7), (int64_t)r.below(4), r.chance(1, 2) ? (int64_t)r.below(4) : 0};
       p.ops.push_back(o);
     }
     // caption encoder
@@ -389,6 +429,13 @@ struct C16 : World {
     }
     // exporter
     int nexp = 1 + (int)r.below(thorough ? 5 : 3);
+    auto textopts = [&] {
+      Op o; o.task = 2; o.kind = "textopts";
+      // a: page selector, level, wait, option seed: the text module's option space (control x format/charset x gfx_chr) on one page
+      o.a = {(int64_t)r.below(64), (int64_t)r.below(4), (int64_t)r.below(4), (int64_t)r.below(1u << 30)};
+      p.ops.push_back(o);
+    };
+    if (r.chance(1, 6)) textopts();
     for (int i = 0; i < nexp; i++) {
       int what = (int)r.below(10);
       if (what < 6) {
@@ -396,7 +443,9 @@ struct C16 : World {
         // a: module, option seed, page selector, level, wait, mem seed, flags (bit0 sweep all buffer sizes, bit1 enumerate every fault point,
         //    bit2 file exists before, bit3 ..)
         int flags = (r.chance(1, thorough ? 3 : 8) ? 1 : 0) | (faults && r.chance(1, thorough ? 4 : 12) ? 2 : 0) | (r.chance(1, 3) ? 4 : 0);
-        o.a = {(int64_t)r.below(5), (int64_t)r.below(1u << 30), (int64_t)r.below(64), (int64_t)r.below(4), (int64_t)r.below(4), (int64_t)r.below(1u << 30), flags};
+        // module = position in vbi_export_info_enum (html, png, ppm, text, xpm in this build); the text module a little more often
+        int64_t module = r.chance(1, 6) ? 3 : (int64_t)r.below(5);
+        o.a = {module, (int64_t)r.below(1u << 30), (int64_t)r.below(64), (int64_t)r.below(4), (int64_t)r.below(4), (int64_t)r.below(1u << 30), flags};
         p.ops.push_back(o);
         if (faults) {
           int nf = 1 + (int)r.below(thorough ? 10 : 6);
@@ -417,11 +466,12 @@ struct C16 : World {
         p.ops.push_back(o);
       } else {
         Op o; o.task = 2; o.kind = "print";
-        // a: page selector, level, wait, region seed, charset, buffer size mode
-        o.a = {(int64_t)r.below(64), (int64_t)r.below(4), (int64_t)r.below(4), (int64_t)r.below(1u << 30), (int64_t)r.below(n_charsets), (int64_t)r.below(6)};
+        // a: page selector, level, wait, region seed, charset, buffer size mode, flags (bit0 sweep the buffer sizes)
+        o.a = {(int64_t)r.below(64), (int64_t)r.below(4), (int64_t)r.below(4), (int64_t)r.below(1u << 30), (int64_t)r.below(n_charsets), (int64_t)r.below(6), r.chance(1, 4) ? 1 : 0};
         p.ops.push_back(o);
       }
     }
+    if (r.chance(1, 5)) textopts();
     return p;
   }
 
@@ -488,6 +538,7 @@ struct C16 : World {
     int flags = (int)llabs(op->arg(5));
     int style = (int)(llabs(op->arg(6)) % 7);
     int density = (int)(llabs(op->arg(7)) % 4);
+    int extra = (int)(llabs(op->arg(8)) & 3);
     int pgno = mag * 256 + page;
     uint8_t text[32]; header_text(pgno, text);
     unsigned ctrl = ttx::ctrl_national(nat) | ((hc & 1) ? ttx::C4_ERASE : 0) | ((hc & 2) ? ttx::C5_NEWSFLASH : 0) | ((hc & 4) ? ttx::C6_SUBTITLE : 0) |
@@ -503,7 +554,10 @@ struct C16 : World {
     for (int y : ys) {
       if (ctx->failed) return;
       uint8_t ch[40];
-      gen_row(r, r.chance(1, 3) ? (int)r.below(7) : style, ch);
+      // extra (arg 8, absent in older plans = 0): bit0 rows also draw the headline / mixed-size styles 7 and 8, bit1 they are the page's base style
+      int st = r.chance(1, 3) ? (int)r.below((extra & 1) ? 9 : 7) : style;
+      if ((extra & 2) && st == style) st = 7 + (int)r.below(2);
+      gen_row(r, st, ch);
       ttx::Packet pk = ttx::row(mag, y, ch);
       ctx->log("tx row %d", y);
       push_ttx(pk.b);
@@ -783,8 +837,35 @@ struct C16 : World {
     }
   }
 
-  // text module, no control codes: the bytes, converted back, are the page's characters row by row
-  void check_text_roundtrip(const vbi_page& pg, const TextOpts& to, const std::string& ref) {
+  // ECMA-48 (= ANSI X3.64, the standard the option's menu names) framing of control functions: CSI = ESC [ parameter bytes 3/0-3/15,
+  // intermediate bytes 2/0-2/15, one final byte 4/0-7/14; other escape sequences = ESC, intermediate bytes, one final byte 3/0-7/14
+  // (ESC # 3/4/5/6 are the DEC line-size sequences of the VT 100).  Everything that is not part of a control function stays.
+  static bool strip_control_functions(const std::vector<uint32_t>& in, std::vector<uint32_t>& out, size_t& bad_at, int& nseq) {
+    out.clear(); nseq = 0;
+    for (size_t i = 0; i < in.size();) {
+      if (in[i] != 0x1B) { out.push_back(in[i++]); continue; }
+      size_t k = i + 1;
+      if (k < in.size() && in[k] == '[') {
+        k++;
+        while (k < in.size() && in[k] >= 0x30 && in[k] <= 0x3F) k++;
+        while (k < in.size() && in[k] >= 0x20 && in[k] <= 0x2F) k++;
+        if (k >= in.size() || in[k] < 0x40 || in[k] > 0x7E) { bad_at = i; return false; }
+      } else {
+        while (k < in.size() && in[k] >= 0x20 && in[k] <= 0x2F) k++;
+        if (k >= in.size() || in[k] < 0x30 || in[k] > 0x7E) { bad_at = i; return false; }
+      }
+      i = k + 1; nseq++;
+    }
+    return true;
+  }
+
+  // Text module: the bytes, converted back from the requested encoding (terminal control functions removed when the option
+  // "control" asks for them), are the page's characters row by row, each row ended by a line feed.
+  // Leniency, control != 0 only: the right halves of double width / double size characters (VBI_OVER_TOP, VBI_OVER_BOTTOM) may
+  // be left out - the terminal is told to draw the character twice as wide, and format.h says these cells "can be safely
+  // ignored when scanning the page"; the statement does not say which of the two the exporter does.  Printed as the cell's
+  // character (the anchor's, by the same documentation) or as a blank is accepted as well.  Every other cell is demanded.
+  void check_text_roundtrip(const vbi_page& pg, const TextOpts& to, const std::string& ref, const char* what = "") {
     std::string cs = to.charset;
     if (cs.empty()) {
       // the public menu label names the encoding: "ISO-8859-1 (Latin-1 ...)", "ISO-10646/UTF-8 (Unicode)"
@@ -793,26 +874,126 @@ struct C16 : World {
       size_t sl = l.find('/'); if (sl != std::string::npos) l = l.substr(sl + 1);
       cs = l;
     }
-    std::vector<uint32_t> got;
-    if (!decode(cs, ref, got)) { ctx->fail("oracle:text-roundtrip", "text export is not valid %s", cs.c_str()); return; }
+    std::vector<uint32_t> raw, got;
+    if (!decode(cs, ref, raw)) { ctx->fail("oracle:text-roundtrip", "%stext export is not valid %s", what, cs.c_str()); return; }
+    // a page character that looks like framing (line feed; ESC when control functions are to be removed) would make the rows
+    // ambiguous; the decoder has no way to produce one (U+0000 from a failed X/26 composition does occur and is compared)
+    for (int i = 0; i < pg.rows * pg.columns; i++)
+      if (pg.text[i].unicode == 0x0A || (to.control != 0 && pg.text[i].unicode == 0x1B)) { ctx->count("probe_page_cell_looks_like_framing"); return; }
+    if (to.control != 0) {
+      size_t bad = 0; int nseq = 0;
+      if (!strip_control_functions(raw, got, bad, nseq)) { ctx->fail("oracle:text-roundtrip", "%stext export (%s, control=%d): malformed control function at character %zu of %zu", what, cs.c_str(), to.control, bad, raw.size()); return; }
+      if (nseq) ctx->count("text_control_functions_removed", nseq);
+    } else got = raw;
     unsigned gfx = to.gfx; if (gfx < 0x20 || gfx > 0xE000) gfx = 0x20;
-    size_t k = 0;
+    size_t k = 0; int skipped_cells = 0, optional_cells = 0;
     for (int row = 0; row < pg.rows; row++) {
-      for (int col = 0; col < pg.columns; col++) {
-        unsigned u = pg.text[row * pg.columns + col].unicode;
+      size_t end = k; while (end < got.size() && got[end] != '\n') end++;
+      if (end >= got.size()) { ctx->fail("oracle:text-roundtrip", "%stext export (%s, control=%d): row %d of %d is missing or not terminated by a line feed (%zu characters left)", what, cs.c_str(), to.control, row, pg.rows, got.size() - k); return; }
+      const int n = pg.columns; const size_t m = end - k;
+      std::vector<uint32_t> want((size_t)n); std::vector<char> opt((size_t)n, 0);
+      for (int col = 0; col < n; col++) {
+        const vbi_char& ac = pg.text[row * n + col];
+        unsigned u = ac.unicode;
         if (u >= 0xEE00 && u <= 0xEFFF) u = gfx; else if (u >= 0xE600) u = 0x20;  // graphics -> replacement, DRCS / private glyphs -> space
         if (!representable(cs, u)) u = 0x20;
-        if (k >= got.size() || got[k] != u) {
-          ctx->fail("oracle:text-roundtrip", "text export (%s) row %d column %d: U+%04X, the page has U+%04X there (expected U+%04X)", cs.c_str(), row, col, k < got.size() ? got[k] : 0xFFFFFFFFu, pg.text[row * pg.columns + col].unicode, u);
-          return;
-        }
-        k++;
+        want[(size_t)col] = u;
+        if (to.control != 0 && (ac.size == VBI_OVER_TOP || ac.size == VBI_OVER_BOTTOM)) { opt[(size_t)col] = 1; optional_cells++; }
       }
-      if (k >= got.size() || got[k] != '\n') { ctx->fail("oracle:text-roundtrip", "text export (%s): row %d is not terminated by a line feed after %d characters", cs.c_str(), row, pg.columns); return; }
-      k++;
+      // reach[i] = set of j: the first i cells account for the first j characters of the row
+      std::vector<char> cur(m + 1, 0), nxt(m + 1, 0);
+      cur[0] = 1; int far_i = 0; size_t far_j = 0;
+      for (int i = 0; i < n; i++) {
+        std::fill(nxt.begin(), nxt.end(), 0); bool any = false;
+        for (size_t j = 0; j <= m; j++) {
+          if (!cur[j]) continue;
+          if (opt[(size_t)i]) { nxt[j] = 1; any = true; }
+          if (j < m && (got[k + j] == want[(size_t)i] || (opt[(size_t)i] && got[k + j] == 0x20))) { nxt[j + 1] = 1; any = true; if (j + 1 >= far_j) { far_j = j + 1; far_i = i + 1; } }
+        }
+        cur.swap(nxt);
+        if (!any) break;
+      }
+      if (!cur[m] || far_i < 0) {
+        // diagnostics: the longest prefix of the row that can be accounted for
+        bool some = false; for (size_t j = 0; j <= m; j++) some = some || cur[j];
+        ctx->fail("oracle:text-roundtrip", "%stext export (%s, control=%d) row %d: %zu characters for %d cells (%d of them right halves of wide characters that may be left out); the first %zu characters match the cells up to column %d, then U+%04X follows where the page has U+%04X (expected U+%04X)%s",
+                  what, cs.c_str(), to.control, row, m, n, (int)std::count(opt.begin(), opt.end(), 1), far_j, far_i, far_j < m ? got[k + far_j] : (uint32_t)'\n',
+                  far_i < n ? pg.text[row * n + far_i].unicode : (unsigned)'\n', far_i < n ? want[(size_t)far_i] : (unsigned)'\n', some ? " (row too short)" : "");
+        return;
+      }
+      skipped_cells += n - (int)m;
+      k = end + 1;
     }
-    if (k != got.size()) ctx->fail("oracle:text-roundtrip", "text export (%s): %zu extra characters after the last row", cs.c_str(), got.size() - k);
+    if (k != got.size()) { ctx->fail("oracle:text-roundtrip", "%stext export (%s, control=%d): %zu extra characters after the last row", what, cs.c_str(), to.control, got.size() - k); return; }
     ctx->count("text_roundtrips");
+    if (to.control != 0) { ctx->count("text_roundtrips_control"); if (optional_cells) ctx->count("text_roundtrips_control_wide_chars"); if (skipped_cells > 0) ctx->count("probe_text_wide_right_halves_left_out", skipped_cells); }
+  }
+
+  // The text module's own option space on one page: control 0, 1, 2 (in seeded order), each with a seeded format or charset and
+  // graphics replacement (plus the assumed terminal colours fg / bg, which option_set still takes although the option table no
+  // longer lists them: refusing them is accepted).  Every vector is exported to all four targets and judged by the content clause.
+  void text_sweep(vbi_page& pg, bool is_cc, uint64_t seed, int bufmode, int seq) {
+    Rng r(seed, "textsweep");
+    vbi_export* e;
+    { SutScope ss; e = vbi_export_new("text", nullptr); }
+    if (!e) { ctx->fail("oracle:export-new", "vbi_export_new(text) failed"); return; }
+    std::vector<std::string> labels; bool has_charset = false, has_gfx = false, has_control = false; int ctl_lo = 0, ctl_hi = 0;
+    for (int i = 0;; i++) {
+      vbi_option_info* oi;
+      { SutScope ss; oi = vbi_export_option_info_enum(e, i); }
+      if (!oi) break;
+      std::string key = oi->keyword;
+      if (key == "format" && oi->type == VBI_OPTION_MENU && oi->menu.str) for (int k = oi->min.num; k <= oi->max.num; k++) labels.push_back(oi->menu.str[k]);
+      if (key == "charset") has_charset = true;
+      if (key == "gfx_chr") has_gfx = true;
+      if (key == "control" && (oi->type == VBI_OPTION_MENU || oi->type == VBI_OPTION_INT)) { has_control = true; ctl_lo = oi->min.num; ctl_hi = oi->max.num; }
+    }
+    std::vector<int> ctls;
+    if (has_control) for (int v = ctl_lo; v <= ctl_hi && v < ctl_lo + 8; v++) ctls.push_back(v); else ctls.push_back(0);
+    for (size_t i = ctls.size(); i > 1; i--) std::swap(ctls[i - 1], ctls[r.below(i)]);
+    int nb = nonblank(pg);
+    std::string name = std::string(SIMROOT) + "out/sweep" + std::to_string(seq) + ".txt";
+    for (size_t t = 0; t < ctls.size() && !ctx->failed; t++) {
+      TextOpts to; std::string desc; char tmp[96]; vbi_bool ok = TRUE;
+      if (!labels.empty()) to.format_label = labels[0];
+      if (has_control) { to.control = ctls[t]; { SutScope ss; ok = vbi_export_option_set(e, "control", to.control); } snprintf(tmp, sizeof tmp, "control=%d ", to.control); desc += tmp; }
+      if (ok && !labels.empty()) { to.format = (int)r.below(labels.size()); to.format_label = labels[(size_t)to.format]; { SutScope ss; ok = vbi_export_option_set(e, "format", to.format); } snprintf(tmp, sizeof tmp, "format=%d ", to.format); desc += tmp; }
+      if (ok && has_charset) { to.charset = r.chance(1, 3) ? charsets[r.below(n_charsets)] : ""; { SutScope ss; ok = vbi_export_option_set(e, "charset", to.charset.c_str()); } snprintf(tmp, sizeof tmp, "charset='%s' ", to.charset.c_str()); desc += tmp; }
+      if (ok && has_gfx) {
+        static const char* gs[] = {"#", "*", ".", "35", "0x40", "0x25A0", "9608", "x", "0x20", "+", "0x7E", "0xA4"};
+        std::string v = gs[r.below(12)];
+        to.gfx = v.size() == 1 ? (unsigned char)v[0] : (unsigned)strtol(v.c_str(), nullptr, 0);
+        { SutScope ss; ok = vbi_export_option_set(e, "gfx_chr", v.c_str()); } snprintf(tmp, sizeof tmp, "gfx_chr='%s' ", v.c_str()); desc += tmp;
+      }
+      if (!ok) { ctx->fail("oracle:option-set", "setting legal text option [%s] failed: %s", desc.c_str(), vbi_export_errstr(e)); break; }
+      for (const char* k : {"fg", "bg"}) if (r.chance(1, 2)) { int v = (int)r.below(9); vbi_bool ok2; { SutScope ss; ok2 = vbi_export_option_set(e, k, v); } snprintf(tmp, sizeof tmp, "%s=%d%s ", k, v, ok2 ? "" : "(refused)"); desc += tmp; }
+      void* rbuf = nullptr; size_t rsize = 0; void* res;
+      budget_begin("vbi_export_alloc", BUD);
+      { SutScope ss; FillScope fsc; res = vbi_export_alloc(e, &rbuf, &rsize, &pg); }
+      budget_end();
+      bool refok = res != nullptr; std::string ref;
+      if (refok) { ref.assign((char*)rbuf, rsize); free(rbuf); }
+      ctx->log("text sweep #%d [%s] page %x.%x %dx%d -> alloc ok %d size %zu hash %llx", seq, desc.c_str(), pg.pgno, pg.subno, pg.columns, pg.rows, (int)refok, ref.size(), (unsigned long long)hash_bytes(ref.data(), ref.size()));
+      char what[200]; snprintf(what, sizeof what, "option sweep #%d text [%s] of %s page %x", seq, desc.c_str(), is_cc ? "caption" : "Teletext", pg.pgno);
+      if (!refok) ctx->count("probe_export_fails_everywhere");
+      int v = (int)r.below(2);
+      mem_case(e, pg, refok, ref, ref.size(), v);
+      if (!ctx->failed && !ref.empty()) mem_case(e, pg, refok, ref, ref.size() - 1 - (r.chance(1, 2) ? 0 : (size_t)r.below(ref.size())), v ^ 1);
+      if (!ctx->failed) { Outcome s0 = run_stdio(e, pg, bufmode, F_NONE, 0, 1, 0); check_stdio(s0, refok, ref, F_NONE, what); }
+      if (!ctx->failed) { Outcome f0 = run_file(e, pg, name, (int)r.below(2), F_NONE, 0, 1, 0); check_file(f0, refok, ref, F_NONE, what); }
+      if (!ctx->failed && refok) { exports_compared++; if (nb >= 20) rich_pages++; std::string w2 = std::string(what) + ": "; check_text_roundtrip(pg, to, ref, w2.c_str()); }
+      ctx->count("text_option_vectors");
+    }
+    fs.names.erase(name);
+    { SutScope ss; vbi_export_delete(e); }
+    ctx->count(is_cc ? "text_option_sweeps_caption" : "text_option_sweeps_teletext");
+  }
+
+  void do_textopts(const Op* op, int bufmode, int seq) {
+    vbi_page pg; bool is_cc;
+    if (!fetch((int)op->arg(0), (int)op->arg(1), (int)op->arg(2), pg, is_cc)) { ctx->count("page_unavailable"); return; }
+    text_sweep(pg, is_cc, (uint64_t)op->arg(3), bufmode, seq);
+    unref(pg);
   }
 
   void do_export(const Op* op, const std::vector<const Op*>& faults, bool thorough, int bufmode, int seq) {
@@ -879,7 +1060,7 @@ struct C16 : World {
     if (!ctx->failed) { s0 = run_stdio(e, pg, bufmode, F_NONE, 0, 1, 0); check_stdio(s0, refok, ref, F_NONE, what); }
     if (!ctx->failed) { f0 = run_file(e, pg, name, flags & 4, F_NONE, 0, 1, 0); check_file(f0, refok, ref, F_NONE, what); }
     if (!ctx->failed && refok) { exports_compared++; if (nb >= 20) rich_pages++; }
-    if (!ctx->failed && refok && mod == "text" && to.control == 0) check_text_roundtrip(pg, to, ref);
+    if (!ctx->failed && refok && mod == "text") check_text_roundtrip(pg, to, ref);
 
     // fault enumeration
     struct FP { int kind, idx, count, arg; };
@@ -937,6 +1118,7 @@ struct C16 : World {
     fs.names.erase(name);
     { SutScope ss; vbi_export_delete(e); }
     free(es);
+    if (!ctx->failed && mod == "text") text_sweep(pg, is_cc, (uint64_t)op->arg(1) * 0x9E3779B97F4A7C15ull + 1, bufmode, seq);
     unref(pg);
   }
 
@@ -1044,7 +1226,33 @@ struct C16 : World {
     size_t need_a = encode(cs, want).size(), need_b = encode(cs, blanked).size();
     size_t need_hi = std::max(need_a, need_b), need_lo = std::min(need_a, need_b);
     int mode = (int)(llabs(op->arg(5)) % 6);
-    size_t size = mode == 0 ? need_hi : mode == 1 ? (need_lo ? need_lo - 1 : 0) : mode == 2 ? need_hi + 1 + (size_t)r.below(64) : mode == 3 ? (size_t)r.below(need_lo + 1) : mode == 4 ? 0 : need_hi;
+    std::set<size_t> extra_sizes;
+    size_t first = mode == 0 ? need_hi : mode == 1 ? (need_lo ? need_lo - 1 : 0) : mode == 2 ? need_hi + 1 + (size_t)r.below(64) : mode == 3 ? (size_t)r.below(need_lo + 1) : mode == 4 ? 0 : need_hi;
+    if (llabs(op->arg(6)) & 1) {
+      // "never more bytes than the stated buffer size", quantified over all sizes 0..needed+1: every size for small regions, otherwise
+      // the sizes at which a row (with or without its line feed) ends flush with the buffer, one less and one more, plus a seeded stride
+      if (need_hi <= 400) for (size_t sz = 0; sz <= need_hi + 1; sz++) extra_sizes.insert(sz);
+      else {
+        for (int variant = 0; variant < 2; variant++) {
+          const std::vector<uint32_t>& v = variant ? blanked : want;
+          size_t acc = 0;
+          for (int y = 0; y < h; y++) {
+            std::vector<uint32_t> seg(v.begin() + (long)y * (w + 1), v.begin() + (long)y * (w + 1) + w);
+            acc += encode(cs, seg).size();
+            for (size_t d = 0; d < 3; d++) if (acc + d >= 1) extra_sizes.insert(acc + d - 1);
+            acc += 1;
+          }
+        }
+        size_t stride = 1 + need_hi / 150;
+        for (size_t sz = (size_t)r.below(stride); sz <= need_hi + 1; sz += stride) extra_sizes.insert(sz);
+        extra_sizes.insert(need_hi + 1); extra_sizes.insert(need_lo ? need_lo - 1 : 0);
+      }
+      extra_sizes.erase(first);
+      ctx->count("print_size_sweeps");
+    }
+    std::vector<size_t> sizes_v; sizes_v.push_back(first); sizes_v.insert(sizes_v.end(), extra_sizes.begin(), extra_sizes.end());
+    for (size_t size : sizes_v) {
+    if (ctx->failed) break;
     const size_t G = 32;
     char* base = (char*)malloc(G + size + G); memset(base, 0xA5, G + size + G);
     char* buf = base + G;
@@ -1075,6 +1283,7 @@ struct C16 : World {
       ctx->count("print_roundtrips");
     }
     free(base);
+    }
     unref(pg);
   }
 
@@ -1125,7 +1334,7 @@ struct C16 : World {
     for (auto& op : plan.ops) {
       if (op.kind == "page") pages.push_back(&op);
       else if (op.kind == "cap") caps.push_back(&op);
-      else if (op.kind == "export" || op.kind == "fault" || op.kind == "render" || op.kind == "print") exps.push_back(&op);
+      else if (op.kind == "export" || op.kind == "fault" || op.kind == "render" || op.kind == "print" || op.kind == "textopts") exps.push_back(&op);
     }
     auto producer_done = [&] { producers_alive--; if (exp_waiting && exp_task) { exp_waiting = false; sc.wake(exp_task); } };
     if (!pages.empty()) {
@@ -1160,7 +1369,8 @@ struct C16 : World {
             std::vector<const Op*> fl;
             for (size_t k = i + 1; k < exps.size() && exps[k]->kind == "fault"; k++) fl.push_back(exps[k]);
             do_export(op, fl, thorough, bufmode, seq++);
-          } else if (op->kind == "render") do_render(op);
+          } else if (op->kind == "textopts") do_textopts(op, bufmode, seq++);
+          else if (op->kind == "render") do_render(op);
           else if (op->kind == "print") do_print(op);
         }
       }, 2 * 1024 * 1024);
